@@ -373,6 +373,13 @@ func genSteps(t *rapid.T, key string, tree *Iface, n int) []BStep {
 			} else {
 				st.Raw = []byte(fmt.Sprintf(`{"method":%q,"parameters":%s}`, tree.Name+"."+m.Name, rapid.SampledFrom([]string{`"str"`, `17`, `[1,2]`, `true`}).Draw(t, "badparams")))
 			}
+		case r == 11 && len(es) > 0: // a foreign peer answers with a declared error in a shape the generated service never sends
+			st.API = "call"
+			e := rapid.SampledFrom(es).Draw(t, "ferr")
+			q, _ := json.Marshal(tree.Name + "." + e.Name)
+			st.Reply = BReply{Kind: "error", Error: e.Name}
+			st.Canned = []byte(fmt.Sprintf(rapid.SampledFrom([]string{`{"error":%s}`, `{"error":%s,"parameters":null}`, `{"parameters":null,"error":%s}`, `{"error":%s,"parameters":{}}`,
+				`{"error":%s,"parameters":{"unknown_member_zz":1}}`, `{"error":%s,"parameters":[]}`, `{"error":%s,"parameters":"text"}`, `{"error":%s,"continues":true}`}).Draw(t, "fshape"), q))
 		default: // plain send + one receive
 			st.API = "send"
 			st.Reply = BReply{Kind: "reply", Out: g.fields(m.Out)}
@@ -415,6 +422,22 @@ func judgeStep(st BStep, tree *Iface, o BStepObs) (string, int) {
 		}
 	}
 	pre := fmt.Sprintf("%s.%s (%s, impl %s, flags %#x): ", tree.Name, st.Method, st.API, st.Impl, st.Flags)
+	if len(st.Canned) > 0 {
+		// a well-formed error frame from a foreign peer: the generated client must hand back an error of that name
+		// (typed, or the generic one where the parameters do not fit) - and must not crash
+		want := tree.Name + "." + st.Reply.Error
+		if o.Problem != "" {
+			return pre + fmt.Sprintf("the peer answered %s: %s", st.Canned, o.Problem), cmp
+		}
+		if len(o.Recvs) != 1 {
+			return pre + fmt.Sprintf("the driver made %d receives, want 1", len(o.Recvs)), cmp
+		}
+		cmp++
+		if r := o.Recvs[0]; r.ErrStr != want && !strings.HasPrefix(r.ErrStr, want+"(") {
+			return pre + fmt.Sprintf("the peer answered %s, the generated client returned error %q (%s), want the error %s", st.Canned, r.ErrStr, r.ErrType, want), cmp
+		}
+		return "", cmp
+	}
 	if o.Problem != "" {
 		return pre + "driver problem: " + o.Problem, cmp
 	}
@@ -777,6 +800,9 @@ func TestC08Fixed(t *testing.T) {
 			mk("upgrade", 0, in, BReply{Kind: "error", Error: "Failed", Out: []json.RawMessage{json.RawMessage(`"busy"`), json.RawMessage("null"), json.RawMessage("[7]")}}, 0, "override"),
 			mk("upgrade", 0, in, BReply{Kind: "none"}, 0, "embed"),
 			mk("send", 0, in2, BReply{Kind: "error", Error: "Plain"}, 1, "override"),
+			{Pkg: "k0", Iface: tree.Name, Method: "All", API: "call", In: in, Impl: "override", Reply: BReply{Kind: "error", Error: "Failed"}, Canned: []byte(`{"error":"org.example.fixed.Failed"}`)},
+			{Pkg: "k0", Iface: tree.Name, Method: "All", API: "call", In: in, Impl: "override", Reply: BReply{Kind: "error", Error: "Plain"}, Canned: []byte(`{"error":"org.example.fixed.Plain","parameters":null}`)},
+			{Pkg: "k0", Iface: tree.Name, Method: "All", API: "call", In: in, Impl: "override", Reply: BReply{Kind: "error", Error: "Failed"}, Canned: []byte(`{"error":"org.example.fixed.Failed","parameters":{"why":17}}`)},
 			{Pkg: "k0", Iface: tree.Name, Method: "Empty", API: "call", In: []json.RawMessage{}, Impl: "override", Reply: BReply{Kind: "reply"}},
 			{Pkg: "k0", Iface: tree.Name, Method: "NoSuchMethodZz", API: "raw", Raw: []byte(`{"method":"org.example.fixed.NoSuchMethodZz"}`)},
 			{Pkg: "k0", Iface: tree.Name, Method: "All", API: "raw", Raw: []byte(`{"method":"org.example.fixed.All","parameters":"nope"}`)},
